@@ -173,6 +173,10 @@ func (c *Class) Evaluation(
 
 		if slices.Contains(base.BuiltinClasses, parentClass) && parentNamespace == "" {
 			parentFrame = "Builtin"
+		} else if parentFrame == "" && parentNamespace == "" {
+			// an unqualified superclass is looked up lexically: in the enclosing
+			// namespaces from the innermost outwards, then at the top level
+			parentFrame = base.FindDefinedClassFrame(ctx.GetFrame(), parentClass)
 		} else {
 			parentFrame = base.CalculateFrame(parentFrame, parentNamespace)
 		}
